@@ -13,8 +13,8 @@ keys joined by `|`.  Ops (one token each):
                                          attrs `.` or `k=v,k,…` (no `=`: valueless)
 * `D:<addr>:<path>`                      `remove_resource(path)`        → `ok` | `KeyError`
 * `G:<upa|->:<path>:<queries>`           a GET (queries `.` or hex joined by `,`)
-      → `404` | `402` | `H:<id>:<seen>:<orig as URI segments>` | `L:<link>,…` when the resource
-        that ran is the WKCResource `wkc-id` (link = `href;k=v;k`)
+      → `404` | `402` | `H:<id>:<seen>:<orig as URI segments>` | `L:<payload hex>` when the resource
+        that ran is the WKCResource `wkc-id` (the application/link-format payload byte for byte)
 -/
 namespace Aiocoap
 
@@ -46,13 +46,6 @@ def showStr (b : Str) : String := bytesToHex b
 
 def showPath (p : Path) : String :=
   if p.isEmpty then "." else "/".intercalate (p.map showStr)
-
-def showAttr (a : Str × Option Str) : String :=
-  match a.2 with
-  | none => showStr a.1
-  | some v => showStr a.1 ++ "=" ++ showStr v
-
-def showLink (l : Link) : String := ";".intercalate (showStr l.href :: l.attrs.map showAttr)
 
 /-- the segments of the path part of the URI `get_request_uri` builds from
 `_original_request_path` (`"".join("/" + c) or "/"`, message.py:665) -/
@@ -111,7 +104,7 @@ def stepOp (wkc : Option Nat) (impl : Option Str) (root : Site) (op : String) : 
           if !(root.links.all (fun l => l.attrs.all (fun kv => asciiKey kv.1))) ||
               !(qs.all (fun q => match splitEq q with | some kv => asciiKey kv.1 | none => true))
           then .oom
-          else .out root ("L:" ++ ",".intercalate ((wkcRender root.links impl qs).map showLink))
+          else .out root ("L:" ++ bytesToHex (wkcPayload root.links impl qs))
         else .out root s!"H:{h.id}:{showPath h.seen}:{showPath (uriSegs h.orig)}"
     | _, _, _ => .bad
   | _ => .bad
